@@ -168,6 +168,10 @@ def _laws(obj, label, fails, args, imp, check_repr=True):
                 continue  # classes without an evaluable repr are listed by upstream's spec files; not part of this clause
             if not _eq(e, v):
                 bad("repr-differs", f"eval(repr(v)) != v for {type(v).__name__}")
+            # "equal behaviour": fields that == does not look at (e.g. the metadata of a sweep) are visible in the printed representation;
+            # the value read back prints like the original whenever the original's own print evaluates back to something printing the same
+            elif repr(e) == r and repr(w) != r:
+                bad("roundtrip-repr-differs", f"the value read back prints differently: {repr(w)[:200]} vs {r[:200]}")
 
 
 def _perturb(doc, rng):
@@ -284,6 +288,7 @@ def _families(rng):
                                      cirq.CliffordGate.from_op_list([cirq.H(q[0]), cirq.CNOT(q[0], q[1])], q[:2]), cirq.SingleQubitCliffordGate.X_sqrt,
                                      cirq.Duration(picos=3), cirq.Duration(nanos=sympy.Symbol("t")), cirq.LinearDict({"X": 0.5 + 1j, "Z": -2}),
                                      cirq.MeasurementKey("m", path=("a", "b")), cirq.Linspace("a", 0, 1, 5, metadata="md"), cirq.Points("b", [1, 2.5], metadata=q[0]),
+                                     cirq.Points("a", [1, 2], metadata=0), cirq.Linspace("a", 0, 1, 3, metadata=False), cirq.Points("a", [0.5], metadata=""), cirq.Zip(cirq.Points("a", [1, 2], metadata=0.0), cirq.Linspace("b", 0, 1, 2, metadata=cirq.Duration())),
                                      cirq.Zip(cirq.Points("a", [1, 2]), cirq.Points("b", [3, 4])) * cirq.Linspace("c", 0, 1, 2), cirq.ZipLongest(cirq.Points("a", [1, 2, 3]), cirq.Points("b", [3])),
                                      cirq.Concat(cirq.Points("a", [1]), cirq.Points("a", [2, 3]))]),
         ("tagged and classically controlled operations", cirq.Circuit(cirq.X(q[0]).with_tags("t", cirq.VirtualTag()), cirq.measure(q[0], q[1], key="m", invert_mask=(False, True)),
